@@ -272,13 +272,14 @@ def native_sequence(seed=0, linear=False, k_edit=3.0, container="set", assumptio
             rn = sorted(sc.sensor_models[key])
             o0 = oracle(sc, pt, P, key, {r: 0 for r in rn}, k_edit)
             hx = [Fraction(int(v.p), int(v.q)) for v in o0["hx"]]
-            reading = {r: hx[i] + Fraction(rng.randint(1, 12), 8) * (60 if far else 1) for i, r in enumerate(rn)}
-            if not far and k_edit:
-                # place NIS between the m=1 and the m=2 bound when possible: scale to 0.8 x this sensor's own threshold
-                o1 = oracle(sc, pt, P, key, reading, k_edit)
-                if o1["nis"] != 0:
-                    sroot = Fraction(math.sqrt(float(rat(Fraction(o1["threshold"] * 0.8).limit_denominator(10**6)) / o1["nis"]))).limit_denominator(10**9)
-                    reading = {r: hx[i] + (reading[r] - hx[i]) * sroot for i, r in enumerate(rn)}
+            reading = {r: hx[i] + Fraction(rng.randint(1, 12), 8) for i, r in enumerate(rn)}
+            # scale the innovation to a chosen NIS: far = 400 (beyond any sensible bound, also the library's default one);
+            # near = 0.8 x this sensor's own bound (between the m=1 and m=2 bounds), or 1.0 with filtering disabled
+            o1 = oracle(sc, pt, P, key, reading, k_edit)
+            target = 400.0 if far else (o1["threshold"] * 0.8 if k_edit else 1.0)
+            if o1["nis"] != 0:
+                sroot = Fraction(math.sqrt(float(rat(Fraction(target).limit_denominator(10**6)) / o1["nis"]))).limit_denominator(10**9)
+                reading = {r: hx[i] + (reading[r] - hx[i]) * sroot for i, r in enumerate(rn)}
             o = oracle(sc, pt, P, key, reading, k_edit)
             z = ekf.make_reading(key, **{r: float(v) for r, v in reading.items()})
             res = ekf.sensor_model(state, cov, sensor_key=key, sensor_reading=z)
@@ -287,7 +288,7 @@ def native_sequence(seed=0, linear=False, k_edit=3.0, container="set", assumptio
             if near_boundary:
                 continue
             if same != bool(o["discard"]):
-                problems.append(f"update {step} (sensor with {len(rn)} reading(s), NIS {float(o['nis']):.6g}, bound {o['threshold']:.6g}): {'discarded' if same else 'accepted'}, the property's decision is {'discard' if o['discard'] else 'accept'}")
+                problems.append(f"update {step} (sensor with {len(rn)} reading(s), NIS {float(o['nis']):.6g}, bound {o['threshold'] if o['threshold'] is None else round(o['threshold'], 6)}, filtering {'on' if k_edit else 'disabled'}): {'discarded' if same else 'accepted'}, the property's decision is {'discard' if o['discard'] else 'accept'}")
                 continue
             if not same:
                 d = mat_diff(f"update {step}: posterior state", res[0].data, o["x_post"]) or mat_diff(f"update {step}: posterior covariance", res[1].data, o["P_post"])
